@@ -408,6 +408,16 @@ func (s *Sess) genOp() *Op {
 			op.SetMtime = r.Intn(3)
 			op.Mtime = [2]uint32{uint32(r.U64()), uint32(r.Intn(1000000000))}
 		}
+		if r.Intn(4) == 0 {
+			// permission bits and owner: this server may ignore them, but what it
+			// reports afterwards must not change with a restart
+			op.SetPerm = true
+			op.Perm = r.PickU32([]uint32{0, 0, 0644, 0600, 0755, 0777, 04755, 07777, 1})
+			if r.Intn(2) == 0 {
+				op.SetIDs = true
+				op.UidV, op.GidV = r.PickU32([]uint32{0, 1000, ^uint32(0)}), r.PickU32([]uint32{0, 100, 65534})
+			}
+		}
 	case OpLookup:
 		op.H = s.dirHandle()
 		if r.Intn(8) == 0 {
@@ -461,13 +471,16 @@ func (s *Sess) genOp() *Op {
 			op.SetSize = true
 			op.Size = r.Pick(s.offsets())
 		}
+		s.initialAttrs(op)
 	case OpMkdir, OpMknod:
 		op.H = s.dirHandle()
 		op.Name = s.name()
+		s.initialAttrs(op)
 	case OpSymlink:
 		op.H = s.dirHandle()
 		op.Name = s.name()
 		op.Target = r.PickS([]string{"", "t", "/some/where", longName(200, 'L'), longName(1000, 'M'), "rel/../path", longName(4096, 'B'), longName(4097+r.Intn(9000), 'N')})
+		s.initialAttrs(op)
 		if s.srv.N == nil {
 		} else if st := s.srv.N.VerifFsState(); st.Balloc.NumFree() < 6 && r.Intn(2) == 0 {
 			// the disk is nearly full: a target that needs one block more than
@@ -565,6 +578,28 @@ func (s *Sess) genOp() *Op {
 
 // avoidKnownRename rewrites requests that match an open known finding (see
 // KNOWN_FINDINGS.txt): a directory renamed into a different parent.
+// initialAttrs: every fourth creation carries initial times and/or permission
+// bits in its attributes (a server may honour or ignore them; whatever it then
+// reports must be what a restart reports).
+func (s *Sess) initialAttrs(op *Op) {
+	r := s.rng
+	if r.Intn(4) != 0 {
+		return
+	}
+	if r.Intn(3) != 0 {
+		op.SetMtime = 2
+		op.Mtime = [2]uint32{uint32(946684800 + r.Intn(100000)), uint32(r.Intn(1000000000))}
+	}
+	if r.Intn(2) == 0 {
+		op.SetAtime = 2
+		op.Atime = [2]uint32{uint32(946684800 + r.Intn(100000)), uint32(r.Intn(1000000000))}
+	}
+	if r.Intn(3) == 0 {
+		op.SetPerm = true
+		op.Perm = r.PickU32([]uint32{0, 0644, 0755, 0400})
+	}
+}
+
 func (s *Sess) avoidKnownRename(op *Op) {
 	if !knownOpen("C04", "rename-dir-across-directories") && !knownOpen("C04", "rename-dir-into-own-subtree") {
 		return
@@ -903,7 +938,7 @@ func (s *Sess) twinCompare(when string) {
 func fullDump(es []DumpEnt) string {
 	var sb strings.Builder
 	for _, e := range es {
-		fmt.Fprintf(&sb, "%s fh=%x id=%d at=%v mt=%v list=%s\n", e.line(), e.FH, e.Fileid, e.Atime, e.Mtime, e.List)
+		fmt.Fprintf(&sb, "%s fh=%x id=%d at=%v mt=%v %s list=%s\n", e.line(), e.FH, e.Fileid, e.Atime, e.Mtime, e.Attrs, e.List)
 	}
 	return sb.String()
 }
